@@ -2,7 +2,8 @@
    Only statements, each closed by [exact] of a lemma of C21/Proofs.v, and their assumptions.
    Vocabulary: C21/Model.v ([matches], [build], the rule and message records) mirrors the code;
    C21/Spec.v ([matches_spec], [local], [known_C21]) is the D-Bus specification's semantics, the documented
-   exemption and the five known deviation classes. *)
+   exemption and the three known deviation classes (two earlier ones were repaired in /repo by fix 8cf9b673:
+   destination against a message without destination, path_namespace as a string prefix; they are now covered by C21_partial). *)
 From ZV Require Import Base.Bytes Base.Res C21.Model C21.Spec C21.Proofs.
 
 (* The full statement (kept visible; refuted below on the pinned tree). *)
@@ -30,22 +31,6 @@ Proof. exact matches_no_false_negative. Qed.
 Print Assumptions C21_exempt_no_false_negative.
 
 (* Known findings: a rule built through the builder API, a message, the code's verdict, the specification's. *)
-Theorem C21_dest_absent_refuted :
-  let m := {| m_type := Signal; m_sender := Some (B ":1.7"); m_interface := Some (B "a.b"); m_member := Some (B "M");
-              m_path := Some (B "/a"); m_destination := None; m_body := [] |} in
-  exists r, build [ODest (B ":1.5")] = Ok r /\ local r m = true /\ matches r m = Ok true /\
-            forall owns, matches_spec owns r m = false.
-Proof. exact dest_absent_refuted. Qed.
-Print Assumptions C21_dest_absent_refuted.
-
-Theorem C21_path_ns_prefix_refuted :
-  let m := {| m_type := Signal; m_sender := Some (B ":1.7"); m_interface := Some (B "a.b"); m_member := Some (B "M");
-              m_path := Some (B "/ab"); m_destination := None; m_body := [] |} in
-  exists r, build [OPathNs (B "/a")] = Ok r /\ local r m = true /\ matches r m = Ok true /\
-            forall owns, matches_spec owns r m = false.
-Proof. exact path_ns_prefix_refuted. Qed.
-Print Assumptions C21_path_ns_prefix_refuted.
-
 Theorem C21_arg_path_string_refuted :
   let m := {| m_type := Signal; m_sender := Some (B ":1.7"); m_interface := Some (B "a.b"); m_member := Some (B "M");
               m_path := Some (B "/"); m_destination := None; m_body := [AStr (B "/a")] |} in
